@@ -2,6 +2,9 @@
 monitors evaluated on the implementation's observations, and the meaning of monitor violation codes."""
 
 KNOWN_CODES = {
+    401: 'an answer produced at tick t shows a promise pending although t >= its timeout',
+    402: 'the answer 20100 to a create shows the new promise pending although the clock has reached its timeout (D12)',
+    403: 'a row is stored completed in an illegal shape (timed out before the deadline, caller state/value installed at or after it, time-out with a value or a wrong completion time)',
     501: 'a callback row on a missing or completed promise (a registration outlived its promise)',
     502: 'two callbacks or two tasks with one id',
     503: 'a registration disappeared without leaving its task',
@@ -18,6 +21,14 @@ KNOWN_CODES = {
 }
 
 PROPS = {
+    'C04': {
+        'families': [('promises', 'sys', 120, 1200), ('promise-race', 'sys', 80, 800), ('promises-crash', 'sys', 50, 500)],
+        'monitors': ['C04_mon'],
+        'statement': 'forall cfg sch, sch_wf sch -> C04_mon_partial (events cfg sch) = []  (Props/C04.v; the full monitor is refuted by D12: C04_full_refuted)',
+        'assumptions': ['arriving CompletePromise requests name resolved/rejected/canceled', 'known finding D12 (code 402) is excluded from the proved statement'],
+        'level_text': 'Theorem C04_holds_partial: for every schedule no read/complete/search/create-on-existing answer produced at tick t shows a promise pending when t >= timeout (401) and every completed row ever stored is either a time-out (completion time = timeout <= clock, time-out state, empty value, no key) or a completion decided strictly before the timeout (403). The clause for the answer to the create itself (402) is refuted on the faithful model and on the code (known finding D12).',
+        'level_note': 'Trusted: Coq kernel + vm_compute; harness/emitter; hand-written model of the Go coroutines (observation equality on explored schedules only); SQLite. No axioms.',
+    },
     'C05': {
         'families': [('promise-race', 'sys', 100, 1000), ('promises', 'sys', 100, 1000), ('promises-crash', 'sys', 50, 500), ('tasks', 'sys', 60, 600)],
         'monitors': ['C05_mon', 'C05x_mon'],
